@@ -1,6 +1,6 @@
 package main
 
 func allGens(c *ctx) []*gen {
-	return []*gen{genProto(c), genProtoAdv(c), genRlp(c), genRlpAdv(c), genTxOutObj(c), genOutPointObj(c), genTerminiObj(c),
+	return []*gen{genProto(c), genProtoAdv(c), genRlp(c), genRlpAdv(c), genTxOutObj(c), genOutPointObj(c), genTerminiObj(c), genTxModel(c),
 		genTxMon(c), genHeaderMon(c), genWoHeaderMon(c), genWorkObjectMon(c), genStorageMon(c), genP2PMon(c), genRawKeys(c), genAliasMon(c), genRetainMon(c)}
 }
